@@ -150,6 +150,11 @@ def rule_effect(fx, rep, search, cone):
         if not good:
             bad(f"flow/{norm(b.name)}", f"a clock read in `{b.name}` flows into {sorted(set(badsinks))[:4]}, not only into the reported statistics", b, t.get("line"))
     rep.rule("C12-EFFECT", n, 6, ok, "nondeterminism sources in the search cone, poll arms, clock-read sinks")
+    # ... and a search is only "depth-limited" in that sense if the go handler gives it no time limit: for every combination of
+    # go arguments without wtime / btime / movetime the selected time control is the payload-free one (C14-SELECT's path
+    # enumeration, with that expectation; seed C12-7b: a 5 s default limit for every go that is not `infinite`)
+    import pC14
+    pC14.rule_select(fx, rep, rid="C12-SELECT", untimed=True)
 
 
 def forward_sinks(fx, b, start):
@@ -321,7 +326,20 @@ def rule_reset(fx, rep, search, cone):
             rep.violation("C12-RESET", v["key"].replace("C19-CLEAR/reset", "C12-RESET/tt"), v["msg"] + ": entries of the previous game survive ucinewgame", v["site"])
     n += 3
     rep.obligation(ok, 3)
-    rep.rule("C12-RESET", n, 9, ok, "fields written by search are reset; every table slot emptied; ucinewgame resets")
+    # "a fresh engine with the same options": the engine's own state is built with the configured hash size, not with a
+    # placeholder that some later command replaces (seed C12-7a: a zero-slot table until the first `isready`)
+    for (cb3, cbb3, ct3) in fx.callers_of(lambda nm: nm.endswith("PersistentState::new")):
+        if "::tests::" in cb3.name or not norm(cb3.name).startswith("engine::uci::") or norm(cb3.name).startswith("engine::uci::bench"):
+            continue
+        n += 1
+        e3 = cb3.expr(ct3["args"][0], expand_named=True, at=cbb3)
+        good = any(isinstance(x, tuple) and len(x) == 3 and x[0] == "field" and x[2] == "hash_size" for x in walk(e3))
+        rep.obligation(good)
+        if not good:
+            ok = False
+            rep.violation("C12-RESET", "C12-RESET/initial-size", f"`{cb3.name}` builds the engine's persistent state with `{show(e3)[:60]}` instead of the configured hash size: until some later command resizes the table, searches run on a table of another size than the option says, so the same `position` + `go` gives different results depending on which commands preceded it",
+                          {"fn": cb3.name, "file": cb3.file, "line": ct3.get("line")})
+    rep.rule("C12-RESET", n, 9, ok, "fields written by search are reset; every table slot emptied; ucinewgame resets; state built with the configured size")
 
 
 def rule_persearch(fx, rep, search):
@@ -460,6 +478,11 @@ TB = "src/engine/search/tables.rs"
 TC = "src/engine/search/time_control.rs"
 SM = "src/engine/search/mod.rs"
 MUTANTS = [
+    {"name": "engine state built with a zero-slot table, sized on isready (seed C12-7a)", "expect": "C12-RESET/initial-size",
+     "edits": [("src/engine/uci/mod.rs", "        persistent_state: Arc::new(Mutex::new(PersistentState::new(options.hash_size))),", "        persistent_state: Arc::new(Mutex::new(PersistentState::new(0))),"),
+               ("src/engine/uci/mod.rs", "            UciCommand::IsReady => send_response(&UciResponse::ReadyOk),", "            UciCommand::IsReady => {\n                if let Ok(mut state_handle) = self.persistent_state.try_lock() {\n                    state_handle.tt.resize(self.options.hash_size);\n                }\n                send_response(&UciResponse::ReadyOk);\n            }")]},
+    {"name": "go without a time argument gets a default five-second limit (seed C12-7b)", "expect": "C12-SELECT",
+     "edits": [("src/engine/uci/mod.rs", "                let mut time_control = TimeControl::Infinite;\n", "                let mut time_control = TimeControl::ExactTime(Duration::from_secs(5));\n")]},
     {"name": "table cleared in whole chunks only, the remainder survives (seed C12-5a)", "expect": "C12-RESET/tt/slots",
      "edits": [(TT, "        for i in 0..self.data.len() {\n            self.data[i] = None;\n        }\n\n        self.generation = 0;", "        for chunk in self.data.chunks_exact_mut(1 << 20) {\n            chunk.fill(None);\n        }\n\n        self.generation = 0;")]},
     {"name": "benign: Option-typed limits (match form)", "benign": True, "edits": shared_mutants.OPT_MATCH},
